@@ -33,6 +33,16 @@ struct VS_lp32_p32
   int16_t arr[3];
   uint32_t fn;
 };
+// guest layout under lp32 integers with 64-bit (base-relative) pointers
+struct VS_lp32_p64
+{
+  int32_t a;
+  char c;
+  uint64_t p;
+  int64_t ll;
+  int16_t arr[3];
+  uint64_t fn;
+};
 // guest layout under wide integers with 16-bit pointers
 struct VS_wide_p16
 {
